@@ -68,6 +68,13 @@ class Oracles:
         escalation come from the source's definition of that name."""
         a = act_of(obj)
         cfg = self.cfg
+        want = getattr(obj, "_dsim_intended", None)
+        if want is not None and want[0] != "noop" and \
+                (a.kind, a.target, a.name) != tuple(want):
+            # the decoder returned another action than the one the supplied
+            # encoding documents: the step is judged as the documented action
+            self.sim.counters.hit("decode_mismatch")
+            a = self.sim._act_of_key(tuple(want))
         if a.kind == "exploit" and a.name in cfg.exploits:
             e = cfg.exploits[a.name]
             a = a._replace(service=e["service"], os=e["os"],
@@ -647,11 +654,13 @@ class Oracles:
         cfg = self.cfg
         if act.kind == "noop":
             return 0
-        if act.kind == "exploit":
+        if act.kind == "exploit" and act.name in cfg.exploits:
             return cfg.exploits[act.name]["cost"]
-        if act.kind == "privesc":
+        if act.kind == "privesc" and act.name in cfg.privescs:
             return cfg.privescs[act.name]["cost"]
-        return cfg.scan_cost[act.kind]
+        if act.kind in cfg.scan_cost:
+            return cfg.scan_cost[act.kind]
+        return act.cost        # not defined by the source: C11's business
 
     def expected_value(self, rec):
         cfg = self.cfg
